@@ -12,10 +12,48 @@ import (
 	"runtime"
 	"strings"
 	"sync"
+	"sync/atomic"
 	"time"
 
 	"verifharness/hx"
+
+	"github.com/iotaledger/hive.go/runtime/debug"
 )
+
+// scratchDir: where a child may put the files of a process it starts itself (taskpanic, debug-* cases).
+var scratchDir string
+
+var subSeq atomic.Int64
+
+// runInDebugProcess executes one descriptor in a process of its own that runs with debug.SetEnabled(true).
+func runInDebugProcess(outer, inner string) *result {
+	dir := scratchDir
+	if dir == "" {
+		dir = os.TempDir()
+	}
+	pc := &parentCtl{env: hangs.snapshot(), grace: time.Minute}
+	oc := runChild(dir, int(1000000+subSeq.Add(1)*1000)+os.Getpid()%1000, []job{{0, inner}}, pc, nil, "C16_DEBUG=1")
+	var res *result
+	switch {
+	case oc.stderr != "":
+		res = crashed(job{0, outer}, oc.stderr, true)
+	case oc.done[0] != nil:
+		res = oc.done[0]
+		if len(res.lines) > 0 {
+			res.lines[0][0] = outer
+		}
+		if res.nontriv != "" {
+			res.nontriv = "debug|" + res.nontriv
+		}
+	default:
+		res = newResult()
+		res.lines = append(res.lines, [2]string{outer, "ok"})
+		res.count("skipped-in-debug-process")
+	}
+	res.count("debug-mode-cases")
+
+	return res
+}
 
 // Crash isolation.  A panic inside a goroutine that the code under test started itself (the pool's dispatcher, a
 // worker) cannot be recovered in-process and kills the harness.  Cases are therefore executed by child processes (this
@@ -83,6 +121,13 @@ func childMain(chunkFile, resFile string) {
 	}
 	hangs.load()
 	hangs.emit = emit
+	scratchDir = filepath.Dir(resFile)
+	if os.Getenv("C16_DEBUG") == "1" {
+		// the whole process runs with hive.go's debug mode: Task.run starts a deadlock detector per task (short timeout, so
+		// that gated tasks are reported — on stdout, which nobody reads) and newTask records the closure's stack trace
+		debug.SetEnabled(true)
+		debug.DeadlockDetectionTimeout = 20 * time.Millisecond
+	}
 	const par = 4
 	sem := make(chan struct{}, par)
 	var wg sync.WaitGroup
@@ -223,7 +268,7 @@ func (pc *parentCtl) exhausted() bool {
 }
 
 // runChild runs one child over jobs and follows its result stream while it runs.
-func runChild(dir string, seq int, jobs []job, pc *parentCtl, progress func(oc *childOutcome) (stop bool)) childOutcome {
+func runChild(dir string, seq int, jobs []job, pc *parentCtl, progress func(oc *childOutcome) (stop bool), env ...string) childOutcome {
 	chunkFile := filepath.Join(dir, fmt.Sprintf("chunk%d.json", seq))
 	resFile := filepath.Join(dir, fmt.Sprintf("res%d.jsonl", seq))
 	b, _ := json.Marshal(jobs)
@@ -237,10 +282,13 @@ func runChild(dir string, seq int, jobs []job, pc *parentCtl, progress func(oc *
 	}
 	cmd := exec.Command(self, "--child", chunkFile, resFile)
 	envJSON, _ := json.Marshal(pc.env)
-	cmd.Env = append(os.Environ(), "C16_HANGCTL="+string(envJSON))
+	cmd.Env = append(append(os.Environ(), "C16_HANGCTL="+string(envJSON)), env...)
 	var errBuf strings.Builder
 	cmd.Stderr = &errBuf
 	cmd.Stdout = os.Stdout
+	if len(env) > 0 {
+		cmd.Stdout = nil // a debug-mode process prints its deadlock reports there
+	}
 	oc := childOutcome{done: map[int]*result{}, skipped: map[int]string{}}
 	begun := map[int]bool{}
 	if err := cmd.Start(); err != nil {
